@@ -18,7 +18,21 @@ func TestMain(m *testing.M) {
 
 var fieldNames = []string{"A", "B", "K", "Lst", "Key"}
 
+var longKey = strings.Repeat("long-affinity-key/", 80)
+
+var chainMode bool
+
 func genT(rt *rapid.T, depth int) T {
+	if chainMode && depth > 0 {
+		// one nested field per level keeps deep types small
+		k := rapid.SampledFrom([]string{"ptr", "ptr", "struct", "ptrs", "structs"}).Draw(rt, "chainkind")
+		name := rapid.SampledFrom(fieldNames).Draw(rt, "chainname")
+		other := "Key"
+		if name == "Key" {
+			other = "K"
+		}
+		return T{Kind: "struct", Fields: []F{{Name: name, T: T{Kind: k, Fields: genT(rt, depth-1).Fields}}, {Name: other, T: T{Kind: "string"}}}}
+	}
 	n := rapid.IntRange(1, 4).Draw(rt, "nfields")
 	names := rapid.Permutation(fieldNames).Draw(rt, "names")[:n]
 	t := T{Kind: "struct"}
@@ -39,7 +53,7 @@ func genT(rt *rapid.T, depth int) T {
 }
 
 func genV(rt *rapid.T, t T) V {
-	strs := []string{"", "x", "y", "k1", "a.b"}
+	strs := []string{"", "x", "y", "k1", "a.b", longKey}
 	fields := func() []V {
 		var out []V
 		for _, f := range t.Fields {
@@ -67,6 +81,9 @@ func genV(rt *rapid.T, t T) V {
 	}
 	// slices
 	n := rapid.IntRange(0, 3).Draw(rt, "len")
+	if !chainMode && rapid.IntRange(0, 39).Draw(rt, "longslice") == 0 {
+		n = rapid.SampledFrom([]int{17, 33, 70}).Draw(rt, "lenlong")
+	}
 	if n == 0 && rapid.Bool().Draw(rt, "nilslice") {
 		return V{Nil: true}
 	}
@@ -94,7 +111,14 @@ func genCase(rt *rapid.T) *Case {
 	if rapid.IntRange(0, 9).Draw(rt, "exotic") == 0 {
 		return &Case{Exotic: 1 + rapid.IntRange(0, len(exotics())-1).Draw(rt, "ex"), Locator: rapid.SampledFrom(ExoticLocators).Draw(rt, "xloc")}
 	}
-	t := genT(rt, 3)
+	depth := 3
+	if rapid.IntRange(0, 19).Draw(rt, "deep") == 0 {
+		depth = rapid.IntRange(6, 14).Draw(rt, "depth") // long chains of nested messages
+		chainMode = true
+	} else {
+		chainMode = false
+	}
+	t := genT(rt, depth)
 	v := genV(rt, t)
 	var ps []string
 	Paths(t, nil, &ps)
